@@ -11,8 +11,9 @@ Contents
   2. core regular expressions with one character of left/right context (for `^`/`$`),
      their denotational language `Matches`, and the executable Brzozowski-derivative matcher
      `derivMatch` (proved equivalent in `Lemmas/RegexDeriv.lean`)
-  3. surface syntax of the XSD/XPath grammar, a recursive-descent recogniser/parser from
-     pattern text, and the translation of the back-reference-free fragment to core expressions
+  3. surface syntax of the XSD/XPath grammar: a lexer from pattern text to lexemes (`lexS`), the
+     grammar over lexemes (`parseT`, shared with the Python side) and the core expression of the
+     back-reference-free fragment (`specRE`)
   4. the four F&O functions as functions of the match-span list (`specAnalyze`, ...)
 -/
 import EPV.Model.CharClass
@@ -192,19 +193,6 @@ inductive CClass where
   | mk (neg : Bool) (items : List CItem) (sub : Option CClass)
   deriving Repr, Inhabited
 
-inductive Rx where
-  | eps
-  | chr (c : Ch)
-  | dot                                      -- WildcardEsc
-  | cls (c : CClass) (src : List Ch)          -- the class and its source text `[...]`
-  | bol | eol                                -- F&O: `^` `$`
-  | group (capture : Bool) (r : Rx)
-  | cat (a b : Rx)
-  | alt (a b : Rx)
-  | quant (r : Rx) (lo : Nat) (hi : Option Nat) (lazy : Bool)
-  | backref (n : Nat)
-  deriving Repr, Inhabited
-
 /-- `xpath = true`: the F&O 3.1 flavour (anchors, reluctant quantifiers, back-references, `(?:`,
 `\$`); `false`: the plain XSD flavour (pattern facet).  `v11`: XSD 1.1 (else 1.0). -/
 structure Opts where
@@ -313,34 +301,39 @@ def pSingle (o : Opts) : Nat → Bool → List Ch → List CItem → PSt → Opt
         pParts o f ng rest (.chr c :: acc) { st with unclear := st.unclear || (hy && !acc.isEmpty && !last) }
 end
 
-def pNat : List Ch → Nat → Nat × List Ch
-  | c :: rest, acc => if isDigit c then pNat rest (acc * 10 + (c - 48)) else (acc, c :: rest)
-  | [], acc => (acc, [])
+/-- [71] QuantExact ::= [0-9]+ : (value, rest) -/
+def readNat (l : List Ch) : Option (Nat × List Ch) :=
+  let ds := l.takeWhile isDigit
+  if ds.isEmpty then none else some (ds.foldl (fun n c => n * 10 + (c - 48)) 0, l.dropWhile isDigit)
 
-/-- [67]-[71] quantifier (after an atom); F&O: optional `?` for reluctant -/
-def pQuant (o : Opts) (inp : List Ch) : Option (Option (Nat × Option Nat × Bool) × List Ch) :=
-  let lazyOf (rest : List Ch) : Bool × List Ch :=
-    match rest with
-    | 63 :: r => if o.xpath then (true, r) else (false, rest)
-    | _ => (false, rest)
-  match inp with
-  | 63 :: rest => let (l, r) := lazyOf rest; some (some (0, some 1, l), r)
-  | 42 :: rest => let (l, r) := lazyOf rest; some (some (0, none, l), r)
-  | 43 :: rest => let (l, r) := lazyOf rest; some (some (1, none, l), r)
-  | 123 :: d :: rest =>
-    if !isDigit d then none else
-    let (lo, rest1) := pNat (d :: rest) 0
-    match rest1 with
-    | 125 :: rest2 => let (l, r) := lazyOf rest2; some (some (lo, some lo, l), r)
-    | 44 :: 125 :: rest2 => let (l, r) := lazyOf rest2; some (some (lo, none, l), r)
-    | 44 :: d2 :: rest2 =>
-      if !isDigit d2 then none else
-      let (hi, rest3) := pNat (d2 :: rest2) 0
-      match rest3 with
-      | 125 :: rest4 => if lo ≤ hi then (let (l, r) := lazyOf rest4; some (some (lo, some hi, l), r)) else none
-      | _ => none
+/-- F&O: a quantifier may be followed by `?` (reluctant) -/
+def lazyOf (o : Opts) (rest : List Ch) : Bool × List Ch :=
+  match rest with
+  | 63 :: r => if o.xpath then (true, r) else (false, rest)
+  | _ => (false, rest)
+
+/-- [68]-[70] quantity inside `{ }` (text after `{`): `n}`, `n,}`, `n,m}` with n ≤ m -/
+def pQuantity (l : List Ch) : Option (Nat × Option Nat × List Ch) :=
+  match readNat l with
+  | none => none
+  | some (lo, 125 :: r) => some (lo, some lo, r)
+  | some (lo, 44 :: 125 :: r) => some (lo, none, r)
+  | some (lo, 44 :: r1) =>
+    match readNat r1 with
+    | some (hi, 125 :: r) => if lo ≤ hi then some (lo, some hi, r) else none
     | _ => none
-  | 123 :: [] => none
+  | _ => none
+
+/-- [67] quantifier ::= [?*+] | '{' quantity '}' (at the head of the text), then the optional `?` -/
+def pQuant (o : Opts) (inp : List Ch) : Option (Option (Nat × Option Nat × Bool) × List Ch) :=
+  match inp with
+  | 63 :: rest => let (l, r) := lazyOf o rest; some (some (0, some 1, l), r)
+  | 42 :: rest => let (l, r) := lazyOf o rest; some (some (0, none, l), r)
+  | 43 :: rest => let (l, r) := lazyOf o rest; some (some (1, none, l), r)
+  | 123 :: rest =>
+    match pQuantity rest with
+    | none => none
+    | some (lo, hi, r) => let (l, r') := lazyOf o r; some (some (lo, hi, l), r')
   | _ => some (none, inp)
 
 /-- decimal value of a digit string -/
@@ -360,97 +353,6 @@ def resolveS (digits : List Nat) (g : Nat) : Nat × List Nat :=
   let k := bestPrefix g digits digits.length
   (digitsVal (digits.take k), digits.drop k)
 
-/-- F&O 5.6.1 back-reference `\N` (first digit `d`, then `rest`): resolved by `resolveS` against
-the groups opened so far; it must name a group that is already closed -/
-def pBackref (st : PSt) (d : Ch) (rest : List Ch) : Option (Nat × List Ch) :=
-  let more := rest.takeWhile isDigit
-  let digits := (d - 48) :: more.map (· - 48)
-  let (n, lits) := resolveS digits st.opened
-  if st.closed.contains n then some (n, rest.drop (more.length - lits.length)) else none
-
-mutual
-/-- [64] regExp ::= branch ('|' branch)* -/
-def pRegExp (o : Opts) : Nat → List Ch → PSt → Option (Rx × List Ch × PSt)
-  | 0, _, _ => none
-  | f + 1, inp, st =>
-    match pBranch o f inp st with
-    | none => none
-    | some (b, 124 :: rest, st1) =>
-      (pRegExp o f rest st1).map fun (r, rest', st2) => (.alt b r, rest', st2)
-    | some res => some res
-/-- [65] branch ::= piece* -/
-def pBranch (o : Opts) : Nat → List Ch → PSt → Option (Rx × List Ch × PSt)
-  | 0, _, _ => none
-  | f + 1, inp, st =>
-    match inp with
-    | [] => some (.eps, [], st)
-    | 124 :: _ => some (.eps, inp, st)
-    | 41 :: _ => some (.eps, inp, st)
-    | _ =>
-      match pPiece o f inp st with
-      | none => none
-      | some (p, rest, st1) =>
-        (pBranch o f rest st1).map fun (b, rest', st2) =>
-          (match b with | .eps => p | _ => .cat p b, rest', st2)
-/-- [66] piece ::= atom quantifier? -/
-def pPiece (o : Opts) : Nat → List Ch → PSt → Option (Rx × List Ch × PSt)
-  | 0, _, _ => none
-  | f + 1, inp, st =>
-    match pAtom o f inp st with
-    | none => none
-    | some (a, rest, st1) =>
-      match pQuant o rest with
-      | none => none
-      | some (none, rest') => some (a, rest', st1)
-      | some (some (lo, hi, l), rest') => some (.quant a lo hi l, rest', st1)
-/-- [72] atom ::= NormalChar | charClass | '(' regExp ')'  (+ F&O: `^`, `$`, `(?:`, back-reference) -/
-def pAtom (o : Opts) : Nat → List Ch → PSt → Option (Rx × List Ch × PSt)
-  | 0, _, _ => none
-  | f + 1, inp, st =>
-    match inp with
-    | [] => none
-    | 40 :: rest =>
-      let nonCap := o.xpath && (match rest with | 63 :: 58 :: _ => true | _ => false)
-      if nonCap then
-        match pRegExp o f (rest.drop 2) st with
-        | some (r, 41 :: rest', st1) => some (.group false r, rest', st1)
-        | _ => none
-      else
-        let idx := st.opened + 1
-        match pRegExp o f rest { st with opened := idx } with
-        | some (r, 41 :: rest', st1) => some (.group true r, rest', { st1 with closed := idx :: st1.closed })
-        | _ => none
-    | 91 :: rest =>
-      (pClass o (3 * rest.length + 4) rest st).map fun (c, rest', st1) =>
-        (.cls c (91 :: rest.take (rest.length - rest'.length)), rest', st1)
-    | 92 :: e :: rest =>
-      match singleEsc o e with
-      | some c => some (.chr c, rest, st)
-      | none =>
-        match multiEsc e with
-        | some (k, neg) => some (.cls (.mk false [.esc k neg] none) [92, e], rest, st)
-        | none =>
-          if e == 112 || e == 80 then
-            (pPropName rest).map fun (name, rest') => (.cls (.mk false [.prop name (e == 80)] none) [], rest', st)
-          else if o.xpath && isDigit e && e != 48 then
-            (pBackref st e rest).map fun (n, rest') => (.backref n, rest', st)
-          else none
-    | 92 :: [] => none
-    | 46 :: rest => some (.dot, rest, st)
-    | c :: rest =>
-      if o.xpath && c == 94 then some (.bol, rest, st)
-      else if o.xpath && c == 36 then some (.eol, rest, st)
-      -- [73] NormalChar ::= [^.\?*+{}()|[\]]
-      else if [63, 42, 43, 123, 125, 40, 41, 124, 91, 93].contains c then none
-      else some (.chr c, rest, st)
-end
-
-/-- the recogniser: `some (r, unclear)` iff the text is a regExp of the flavour -/
-def parseRx (o : Opts) (s : List Ch) : Option (Rx × Bool) :=
-  match pRegExp o (4 * s.length + 8) s {} with
-  | some (r, [], st) => some (r, st.unclear)
-  | _ => none
-
 /-- F&O 5.6.1.1 flag `x`: "whitespace characters (#x9, #xA, #xD and #x20) in the regular
 expression are removed prior to matching, [unless] within a character class expression" -/
 def stripX : List Ch → Nat → List Ch
@@ -460,11 +362,8 @@ def stripX : List Ch → Nat → List Ch
   | 93 :: rest, d => 93 :: stripX rest (d - 1)
   | c :: rest, d => if d == 0 && (c == 9 || c == 10 || c == 13 || c == 32) then stripX rest d else c :: stripX rest d
 
-/-- F&O 5.6.1.1 flag `q`: every character of the pattern stands for itself -/
-def literalRx : List Ch → Rx
-  | [] => .eps
-  | [c] => .chr c
-  | c :: rest => .cat (.chr c) (literalRx rest)
+/-! F&O 5.6.1.1 flag `q`: every character of the pattern stands for itself — the lexeme list is
+`pattern.map (atom ∘ chr)`. -/
 
 /-! ### tables and translation to core expressions -/
 
@@ -514,24 +413,84 @@ structure Flags where
   multi : Bool := false       -- `m`
   deriving Repr, Inhabited
 
-/-- has the expression a back-reference (outside the derivative fragment)? -/
-def Rx.hasBackref : Rx → Bool
-  | .backref _ => true
-  | .group _ r | .quant r _ _ _ => r.hasBackref
-  | .cat a b | .alt a b => a.hasBackref || b.hasBackref
-  | _ => false
+/-! ### lexeme-level formulation of the grammar (the one the oracle and the theorems use)
 
-/-- does every `\p{..}` name a known subset? (part of validity, [88]) -/
-def Rx.propsKnown (T : Tables) : Rx → Bool
-  | .cls c _ => (c.toClassE T).isSome
-  | .group _ r | .quant r _ _ _ => r.propsKnown T
-  | .cat a b | .alt a b => a.propsKnown T && b.propsKnown T
-  | _ => true
+`lexS` cuts the pattern text into the lexemes of productions [66]-[88] (atoms, parentheses, `|`,
+quantifiers); `parseT` (the grammar [64]-[66], [72] over lexemes, shared with the Python side, see
+Model/RegexFuns.lean) builds the tree; `specRE` is its language. -/
 
-/-- the core expression of a back-reference-free pattern.  Capturing vs. non-capturing groups and
-greedy vs. reluctant quantifiers have the same language. -/
-def Rx.toRE (T : Tables) (fl : Flags) : Rx → RE
-  | .eps => .eps
+inductive XAtom where
+  | chr (c : Ch)
+  | dot
+  | cls (c : CClass) (src : List Ch)        -- a class and its source text `[...]` / `\d` / `\p{..}`
+  | bol | eol
+  | backref (n : Nat)
+  deriving Repr, Inhabited
+
+/-- one lexeme at the head of the text: (tokens, rest, groups opened so far, unclear-hyphen flag) -/
+def lexStepS (o : Opts) (opened : Nat) : List Ch → Option (List (Tok XAtom) × List Ch × Nat × Bool)
+  | [] => none
+  | 40 :: rest =>
+    -- F&O 3.0: `(?:` opens a non-capturing group
+    let nonCap := o.xpath && (rest.take 2 == [63, 58])
+    if nonCap then some ([.lpar false], rest.drop 2, opened, false)
+    else some ([.lpar true], rest, opened + 1, false)
+  | 41 :: rest => some ([.rpar], rest, opened, false)
+  | 124 :: rest => some ([.bar], rest, opened, false)
+  | 91 :: rest =>
+    match pClass o (3 * rest.length + 4) rest {} with
+    | some (c, rest', st) => some ([.atom (.cls c (91 :: rest.take (rest.length - rest'.length)))], rest', opened, st.unclear)
+    | none => none
+  | 92 :: e :: rest =>
+    match singleEsc o e with
+    | some c => some ([.atom (.chr c)], rest, opened, false)
+    | none =>
+      match multiEsc e with
+      | some (k, neg) => some ([.atom (.cls (.mk false [.esc k neg] none) [92, e])], rest, opened, false)
+      | none =>
+        if e == 112 || e == 80 then
+          (pPropName rest).map fun (name, rest') => ([.atom (.cls (.mk false [.prop name (e == 80)] none) [])], rest', opened, false)
+        else if o.xpath && isDigit e && e != 48 then
+          -- back-reference: `resolveS` against the groups opened so far; the other digits are characters
+          let more := rest.takeWhile isDigit
+          let r := resolveS ((e - 48) :: more.map (· - 48)) opened
+          some ([.atom (.backref r.1)], rest.drop (more.length - r.2.length), opened, false)
+        else none
+  | 92 :: [] => none
+  | 46 :: rest => some ([.atom .dot], rest, opened, false)
+  | c :: rest =>
+    if o.xpath && c == 94 then some ([.atom .bol], rest, opened, false)
+    else if o.xpath && c == 36 then some ([.atom .eol], rest, opened, false)
+    else if c == 63 || c == 42 || c == 43 || c == 123 then
+      match pQuant o (c :: rest) with
+      | some (some (lo, hi, l), rest') => some ([.quant lo hi l], rest', opened, false)
+      | _ => none
+    -- [73] NormalChar ::= [^.\?*+{}()|[\]]
+    else if c == 125 || c == 93 then none
+    else some ([.atom (.chr c)], rest, opened, false)
+
+def lexS (o : Opts) : Nat → List Ch → Nat → Option (List (Tok XAtom) × Bool)
+  | 0, _, _ => none
+  | _ + 1, [], _ => some ([], false)
+  | fuel + 1, inp, opened =>
+    match lexStepS o opened inp with
+    | none => none
+    | some (toks, rest, opened', u) =>
+      (lexS o fuel rest opened').map fun (ts, u') => (toks ++ ts, u || u')
+
+/-- F&O 5.6.1: a back-reference must name a capturing group that is already closed.
+`stack` = the currently open groups (`none` = non-capturing), `next` = number of the next capturing group -/
+def backrefsOk : List (Tok XAtom) → List (Option Nat) → List Nat → Nat → Bool
+  | [], _, _, _ => true
+  | .lpar true :: ts, stack, closed, next => backrefsOk ts (some next :: stack) closed (next + 1)
+  | .lpar false :: ts, stack, closed, next => backrefsOk ts (none :: stack) closed next
+  | .rpar :: ts, some g :: stack, closed, next => backrefsOk ts stack (g :: closed) next
+  | .rpar :: ts, _ :: stack, closed, next => backrefsOk ts stack closed next
+  | .rpar :: ts, [], closed, next => backrefsOk ts [] closed next
+  | .atom (.backref n) :: ts, stack, closed, next => closed.contains n && backrefsOk ts stack closed next
+  | _ :: ts, stack, closed, next => backrefsOk ts stack closed next
+
+def XAtom.den (T : Tables) (fl : Flags) : XAtom → RE
   | .chr c => .cls (· == c)
   | .dot => if fl.dotAll then anyCh else .cls fun c => c != 10 && c != 13      -- `[^\n\r]`
   | .cls c _ => match c.toClassE T with
@@ -539,11 +498,33 @@ def Rx.toRE (T : Tables) (fl : Flags) : Rx → RE
     | none => .empty
   | .bol => .anchor (if fl.multi then .bolM else .bol)
   | .eol => .anchor (if fl.multi then .eolM else .eol)
-  | .group _ r => r.toRE T fl
-  | .cat a b => .cat (a.toRE T fl) (b.toRE T fl)
-  | .alt a b => .alt (a.toRE T fl) (b.toRE T fl)
-  | .quant r lo hi _ => rep (r.toRE T fl) lo hi
   | .backref _ => .empty
+
+/-- language of a syntax tree whose atoms are already core expressions; groups (capturing or not)
+and reluctant quantifiers do not change the language -/
+def Ast.den : Ast RE → RE
+  | .eps => .eps
+  | .atom r => r
+  | .group _ r => r.den
+  | .cat a b => .cat a.den b.den
+  | .alt a b => .alt a.den b.den
+  | .quant r lo hi _ => rep r.den lo hi
+
+/-- the lexemes of a pattern (`none`: not even lexically a regExp) and the unclear-hyphen flag -/
+def specLex (o : Opts) (s : List Ch) : Option (List (Tok XAtom) × Bool) := lexS o (s.length + 1) s 0
+
+def isBackrefTok : Tok XAtom → Bool | .atom (.backref _) => true | _ => false
+def classOfTok : Tok XAtom → Option CClass | .atom (.cls c _) => some c | _ => none
+
+/-- the core expression of a lexeme list: `none` = not a regExp -/
+def specRE (T : Tables) (fl : Flags) (toks : List (Tok XAtom)) : Option RE :=
+  (parseT (toks.map (Tok.map (XAtom.den T fl)))).map Ast.den
+
+/-- validity ([64]-[88] + F&O 5.6.1): lexes, parses, back-references name closed groups,
+every `\p{..}` names a known subset -/
+def specValid (T : Tables) (toks : List (Tok XAtom)) : Bool :=
+  (specRE T {} toks).isSome && backrefsOk toks [] [] 1 &&
+  toks.all fun t => match classOfTok t with | some c => (c.toClassE T).isSome | none => true
 
 /-! ## 4. the F&O functions over the list of match spans
 
